@@ -304,6 +304,81 @@ func c04R3(p *Prog, r *Report) {
 			"oldServerSession"+s+" = currentServerSession"+s+" before the current slot is overwritten",
 			"oldServerSession"+s+" is set from "+mv.fromWhat+" (expected the current session's own "+s+", before it is overwritten): the previous session keeps its ID and cipher but loses or shares its replay history, so its delivered packets are accepted again")
 	}
+	// generation consistency: a read of a current*/old* session field never lies behind the true
+	// edge of a test of a field of the other generation (the old session's packets are checked
+	// against the old session's filter and opened with the old session's cipher)
+	genOf := func(e ast.Expr) string {
+		sel, ok := ast.Unparen(e).(*ast.SelectorExpr)
+		if !ok || objOf(info, sel.X) != recv {
+			return ""
+		}
+		switch {
+		case sel.Sel.Name == "oldServerSessionLastSeenTime":
+			return ""
+		case strings.HasPrefix(sel.Sel.Name, "oldServerSession"):
+			return "old"
+		case strings.HasPrefix(sel.Sel.Name, "currentServerSession"):
+			return "current"
+		}
+		return ""
+	}
+	type genTest struct {
+		gen  string
+		edge Edge
+		at   token.Pos
+	}
+	var genTests []genTest
+	for _, v := range fc.G.V {
+		if v.Kind != VCond || v.Node == nil {
+			continue
+		}
+		gens := map[string]bool{}
+		ast.Inspect(v.Node, func(n ast.Node) bool {
+			if e, ok := n.(ast.Expr); ok {
+				if g := genOf(e); g != "" {
+					gens[g] = true
+				}
+			}
+			return true
+		})
+		if len(gens) != 1 {
+			continue
+		}
+		for g := range gens {
+			for _, e := range v.Succs {
+				if e.Label == LTrue {
+					genTests = append(genTests, genTest{g, e, v.Node.Pos()})
+				}
+			}
+		}
+	}
+	nGen := 0
+	for _, v := range fc.G.V {
+		as, ok := v.Node.(*ast.AssignStmt)
+		if !ok || v.Kind != VStmt {
+			continue
+		}
+		for _, rhs := range as.Rhs {
+			g := genOf(rhs)
+			if g == "" {
+				continue
+			}
+			// only selections into locals (the rotation block copies current into old by design)
+			if l, isSel := ast.Unparen(as.Lhs[0]).(*ast.SelectorExpr); isSel && objOf(info, l.X) == recv {
+				continue
+			}
+			nGen++
+			mixed := ""
+			for _, gt := range genTests {
+				if gt.gen != g && fc.G.EdgeDominates([]Edge{gt.edge}, v.ID) {
+					mixed = p.posStr(gt.at)
+				}
+			}
+			r.Check(mixed == "", rule, prefix+":generation-consistent:"+exprStr(rhs), p.posStr(as.Pos()), "the field read belongs to the session generation whose test selected this branch",
+				"a packet that matched the "+map[string]string{"old": "current", "current": "old"}[g]+" server session (test at "+mixed+") is handled with "+exprStr(rhs)+" of the other generation: it is checked against / recorded in the wrong replay filter or opened with the wrong cipher, so a delivered packet of that session is accepted again")
+		}
+	}
+	r.Check(nGen >= 4, rule, prefix+":generation-reads-found", p.posStr(fc.Body.Pos()), "the selection reads cipher and filter of both generations", fmt.Sprintf("only %d selections of a session generation's cipher/filter found (expected 4)", nGen))
 	r.Check(lastSeenWrites >= 2, rule, prefix+":last-seen-refreshed", p.posStr(fc.Body.Pos()), "last-seen time refreshed for old-session and new-session packets", fmt.Sprintf("oldServerSessionLastSeenTime is written at %d site(s) (old-session packets and session changes both must refresh it)", lastSeenWrites))
 	// new session filter is fresh: the value stored into currentServerSessionFilter on the new-session path is the NewSlidingWindowFilter result
 	if cw, ok := curWrites["Filter"]; ok {
